@@ -11,8 +11,10 @@ import (
 	"encoding/base64"
 	"fmt"
 	"math/rand/v2"
+	"runtime"
 	"sort"
 	"strings"
+	"syscall"
 	"time"
 
 	"github.com/google/gce-tcb-verifier/gcetcbendorsement/parsepath"
@@ -36,7 +38,7 @@ func init() {
 			"(neighbour) the same with one type-breaking edit of the structure (index dropped/added, literal of the wrong kind or out of the key range, map-entry field, unknown/foreign field, negative/huge index); " +
 			"(soup) token soups, random bytes, mutated valid texts and long inputs - whatever parses is evaluated and compared with a typed walk of the returned protopath; " +
 			"(render) InspectPayload/InspectSignature/InspectMask, MaskOptions.Mask and the CLI 'inspect payload|signature|mask' (in-process, in-memory IO) for bin/hex/base64/auto(terminal and not) over byte strings of boundary lengths. " +
-			"Oracle: the reference walk (pathref.Walk) says present(value)/absent/unwalkable; a parse error is always allowed (counted); after a successful parse the evaluation must return exactly the walked value (every intermediate value too) when present and an error otherwise; no panic; CPU <= 2 s and allocation <= 64 MiB + 4 KiB/byte per call; " +
+			"Oracle: the reference walk (pathref.Walk) says present(value)/absent/unwalkable; a parse error is always allowed (counted); after a successful parse the evaluation must return exactly the walked value (every intermediate value too) when present and an error otherwise; no panic, no call that fails to return (200 s CPU backstop), allocation <= 64 MiB + 4 KiB/byte per call; " +
 			"bin output equals the field bytes, hex/base64 output decodes (encoding/hex, RFC 4648 standard alphabet) to exactly the field bytes. " +
 			"non-trivial = a path that parsed and was evaluated (or a rendering that was produced); distinct = (family, root type, step-kind shape with map key kinds, kind of the addressed value, expected status, outcome) and (entry, form, length class) cells",
 		Assumptions: []string{
@@ -44,9 +46,10 @@ func init() {
 			"an unset singular message field is not absent (protobuf reflection reads it as the empty message); only missing list indices and map keys are absent",
 			"\\x and octal escapes are only generated for ASCII (above 0x7f the text format reads them as bytes, the scanner as code points: not judged)",
 			"hex output is accepted in either case, base64 must use the standard alphabet with padding (README: 'encoded as hex or base64'); BytesHexGuidify is not reachable from --bytesform and is not judged",
+			"C19 states no time bound: CPU time per call is evidence (maxima), only a 200 s backstop decides (non-termination); allocation is bounded per call as in C07; the worker runs under ulimit -v 6 GiB so that runaway allocation ends the child, not the host",
 			"CLI paths contain no comma or quote (cobra's --path is a CSV string slice); the CLI is driven in-process through the verif backend hook with in-memory IO",
 		},
-		ShardsQuick: 8, ShardsThor: 16, TimeoutS: 600, TimeoutThor: 3000, Run: run,
+		ShardsQuick: 8, ShardsThor: 16, TimeoutS: 1500, TimeoutThor: 3600, UlimitVKB: 6 << 20, Run: run,
 	})
 }
 
@@ -83,8 +86,27 @@ type checker struct {
 	neighbourEv int
 }
 
-func budget(text string) core.Budget {
-	return core.Budget{CPU: 2 * time.Second, Alloc: 64<<20 + 4096*uint64(len(text))}
+func threadUserCPU() time.Duration {
+	var ru syscall.Rusage
+	const rusageThread = 1
+	if err := syscall.Getrusage(rusageThread, &ru); err != nil {
+		return 0
+	}
+	return time.Duration(ru.Utime.Nano())
+}
+
+// guard is core.Guard for panics, allocated bytes and non-termination. C19 itself states no time
+// bound, and CPU time turned out not to be a load-independent unit on this kind of host: with
+// unrelated processes exhausting the VM's memory, getrusage charged 30-40 s of "CPU" to
+// sub-millisecond calls. So CPU time is recorded as evidence (user-mode thread time per entry
+// point) and only a 200 s backstop decides: it exists to end and report a call that never returns.
+func (k *checker) guard(i int, entry, gen string, inputLen int, f func()) core.Measured {
+	runtime.LockOSThread()
+	defer runtime.UnlockOSThread()
+	u0 := threadUserCPU()
+	m := k.c.Guard(i, entry, gen, core.Budget{CPU: 200 * time.Second, Alloc: 64<<20 + 4096*uint64(inputLen)}, f)
+	k.c.Max("user_cpu_us/"+entry, int64((threadUserCPU()-u0)/time.Microsecond))
+	return m
 }
 
 func showMsg(m protoreflect.Message) string {
@@ -163,7 +185,7 @@ func (k *checker) evalText(i int, family, gen, text string, rt rootType, msgs []
 	c := k.c
 	var pp protopath.Path
 	var perr error
-	m := c.Guard(i, entParse, gen, budget(text), func() { pp, perr = parsepath.ParsePath(rt.mt.Descriptor(), text) })
+	m := k.guard(i, entParse, gen, len(text), func() { pp, perr = parsepath.ParsePath(rt.mt.Descriptor(), text) })
 	if m.Panicked {
 		return false
 	}
@@ -184,7 +206,7 @@ func (k *checker) evalText(i int, family, gen, text string, rt rootType, msgs []
 		exp := ref(nm.m, pp)
 		var vs protopath.Values
 		var err error
-		g := c.Guard(i, entEval, gen, budget(text), func() { vs, err = parsepath.PathValues(pp, nm.m.Interface()) })
+		g := k.guard(i, entEval, gen, len(text), func() { vs, err = parsepath.PathValues(pp, nm.m.Interface()) })
 		if g.Panicked {
 			c.Count("eval-panic/"+family, 1)
 			c.Cell("%s|%s|%s|%s|%s|PANIC", family, rt.name, cut(exp.Shape), exp.Final, exp.Status)
@@ -301,7 +323,7 @@ func spellingFeatures(sp *pathref.Spelling) []string {
 		f = append(f, "root:implicit")
 	}
 	for b := range sp.Bases {
-		f = append(f, "int:"+b)
+		f = append(f, b)
 	}
 	if sp.Negative {
 		f = append(f, "int:negative")
@@ -316,7 +338,7 @@ func spellingFeatures(sp *pathref.Spelling) []string {
 	return f
 }
 
-var wantSpellings = []string{"root:explicit", "root:implicit", "int:dec", "int:hex", "int:oct", "int:negative", "quote:dq", "quote:sq",
+var wantSpellings = []string{"root:explicit", "root:implicit", "key-int:dec", "key-int:hex", "key-int:oct", "list-index:dec", "list-index:hex", "list-index:oct", "int:negative", "quote:dq", "quote:sq",
 	"escape:simple", "escape:hex", "escape:oct", "escape:u4", "escape:u8", "escape:raw-utf8"}
 var wantKeyKinds = []string{"Mstring", "Mbool", "Mint32", "Mint64", "Muint32", "Muint64"}
 
@@ -343,17 +365,14 @@ func (k *checker) grammar(i int, r *rand.Rand, rt rootType) {
 			msgs = append(msgs, namedMsg{"element-deleted", cl})
 		}
 	}
+	mapThenF := false
 	if toks := strings.Split(w0.Shape, "."); w0.Status == pathref.Present {
 		for j := 1; j < len(toks); j++ {
-			if toks[j] == "F" && strings.HasPrefix(toks[j-1], "M") {
-				k.mapThenF++
-				c.Count("generated/present-field-after-map-index", 1)
-				break
-			}
+			mapThenF = mapThenF || (toks[j] == "F" && strings.HasPrefix(toks[j-1], "M"))
 		}
 	}
 	feats := spellingFeatures(sp)
-	k.evalText(i, "grammar", gen, text, rt, msgs,
+	parsed := k.evalText(i, "grammar", gen, text, rt, msgs,
 		func(m protoreflect.Message, _ protopath.Path) pathref.Walked { return pathref.Walk(m, steps) },
 		func(msgName string, exp pathref.Walked) {
 			for _, f := range feats {
@@ -366,6 +385,10 @@ func (k *checker) grammar(i int, r *rand.Rand, rt rootType) {
 			}
 			k.okRoot[rt.name] = true
 		})
+	if parsed && mapThenF {
+		k.mapThenF++
+		c.Count("evaluated/present-field-after-map-index", 1)
+	}
 	for _, f := range feats {
 		c.Count("spelled/"+f, 1)
 	}
@@ -414,6 +437,18 @@ func (k *checker) neighbour(i int, r *rand.Rand, rt rootType) {
 	if len(idx) > 0 {
 		ops = append(ops, "drop-index", "drop-index", "drop-index", "wrong-literal-kind", "key-out-of-range", "negative-index", "huge-index", "map-entry-field")
 	}
+	// 32-bit integer keys present in the message: key +- 2^32 is not a key of the map's type
+	var alias []int
+	if toks := strings.Split(pathref.Walk(m0, steps).Shape, "."); len(toks) == len(steps) {
+		for _, j := range idx {
+			if toks[j] == "Mint32" || toks[j] == "Muint32" {
+				alias = append(alias, j)
+			}
+		}
+	}
+	if len(alias) > 0 {
+		ops = append(ops, "key-plus-2^32", "key-plus-2^32", "key-plus-2^32")
+	}
 	op := ops[r.IntN(len(ops))]
 	ins := func(at int, s pathref.Step) {
 		steps = append(steps[:at], append([]pathref.Step{s}, steps[at:]...)...)
@@ -435,6 +470,19 @@ func (k *checker) neighbour(i int, r *rand.Rand, rt rootType) {
 		pool := []pathref.Lit{pathref.UintLit(1 << 31), pathref.UintLit(1 << 32), pathref.UintLit(1 << 63), pathref.UintLit(1<<64 - 1),
 			pathref.IntLit(-1), pathref.IntLit(-(1 << 31) - 1), {Kind: pathref.LInt, Neg: true, Mag: 1<<63 + 1}, {Kind: pathref.LInt, Neg: true, Mag: 0}}
 		steps[at] = pathref.I(pool[r.IntN(len(pool))])
+	case "key-plus-2^32":
+		at := alias[r.IntN(len(alias))]
+		l := steps[at].Lit
+		switch {
+		case l.Neg && l.Mag > 0 && r.IntN(2) == 0:
+			l = pathref.UintLit(1<<32 - l.Mag) // -k + 2^32
+		case l.Neg && l.Mag > 0:
+			l.Mag += 1 << 32
+		default:
+			l.Mag += uint64(1+r.IntN(3)) << 32
+			l.Neg = false
+		}
+		steps[at] = pathref.I(l)
 	case "negative-index":
 		at := idx[r.IntN(len(idx))]
 		steps[at] = pathref.I(pathref.IntLit(-1 - int64(r.IntN(3))))
